@@ -49,9 +49,9 @@ ACTIONS = {
                 "fail_connect", "slow_send", "add_channel"],
     "binance": ["tick", "msg_trade", "msg_user", "expired", "garbage", "unknown_stream", "ack", "sub_error", "close", "drop",
                 "fail_connect", "fail_http", "slow_http", "add_channel"],
-    "bitstamp-public": ["tick", "msg_trades", "msg_orders", "reconnect_req", "bts_error", "sub_failed", "garbage", "unknown_event",
+    "bitstamp-public": ["tick", "msg_trades", "msg_trades2", "msg_orders", "reconnect_req", "bts_error", "sub_failed", "garbage", "unknown_event",
                         "close", "drop", "fail_connect", "slow_send", "add_channel"],
-    "bitstamp-private": ["tick", "msg_trades", "msg_orders", "reconnect_req", "sub_failed", "garbage", "close", "drop",
+    "bitstamp-private": ["tick", "msg_trades", "msg_trades2", "msg_orders", "reconnect_req", "sub_failed", "garbage", "close", "drop",
                          "fail_connect", "fail_http", "slow_http", "add_channel"],
 }
 
@@ -173,9 +173,13 @@ def run_case(fam, actions):
             else:
                 chans["trades"] = strades.get_public_channel(PS)
                 chans["orders"] = sorders.get_public_channel(PS)
+            # a second pair whose channel name EXTENDS the first one's (live_trades_btcusd / live_trades_btcusdc)
+            PS2 = bs.Pair("BTC", "USDC")
+            chans["trades2"] = strades.get_private_channel(PS2) if private else strades.get_public_channel(PS2)
             sources["trades"] = strades.WebSocketEventSource(PS, cli)
             sources["orders"] = sorders.WebSocketEventSource(PS, cli)
-            for name in ("trades", "orders"):
+            sources["trades2"] = strades.WebSocketEventSource(PS2, cli)
+            for name in ("trades", "orders", "trades2"):
                 cli.set_channel_event_source(chans[name], sources[name])
 
             def wanted():
@@ -301,6 +305,9 @@ def run_case(fam, actions):
                     if a == "msg_trades":
                         ws.deliver("text", json.dumps({"event": "trade", "channel": chans["trades"], "data": trade}))
                         sent_msgs["trades"] += 1
+                    elif a == "msg_trades2":
+                        ws.deliver("text", json.dumps({"event": "trade", "channel": chans["trades2"], "data": trade}))
+                        sent_msgs["trades2"] += 1
                     elif a == "msg_orders":
                         ws.deliver("text", json.dumps({"event": "order_created", "channel": chans["orders"], "data": order}))
                         sent_msgs["orders"] += 1
